@@ -572,7 +572,22 @@ func genC19(r *RNG, tier string) []Case {
 		g := replication.Mysql56GTID{Server: sid, Sequence: seq}
 		simple(fmt.Sprintf("g56 op=gtid_string sid=%s seq=%d", hx(sidb), seq), "gtid56-string", func() string { return hx([]byte(g.String())) }, func(im string) (bool, string) {
 			back, err := replication.ParseGTID("MySQL56", string(unhx(im)))
-			return err == nil && back == replication.GTID(g), "parsing a printed 5.6 GTID does not return an equal value"
+			if err != nil || back != replication.GTID(g) {
+				return false, "parsing a printed 5.6 GTID does not return an equal value"
+			}
+			// the accessors and the singleton set of a GTID
+			if g.Flavor() != "MySQL56" || g.SourceServer() != interface{}(sid) || g.SequenceNumber() != interface{}(seq) || g.SequenceDomain() != nil {
+				return false, "an accessor of the 5.6 GTID does not return the field it names"
+			}
+			if seq >= 1 && seq < 1<<63-1 {
+				one := g.GTIDSet()
+				if !one.ContainsGTID(g) || one.ContainsGTID(replication.Mysql56GTID{Server: sid, Sequence: seq + 1}) ||
+					(seq > 1 && one.ContainsGTID(replication.Mysql56GTID{Server: sid, Sequence: seq - 1})) ||
+					one.String() != fmt.Sprintf("%s:%d", sid.String(), seq) {
+					return false, "GTIDSet() of a 5.6 GTID is not the singleton set of that GTID"
+				}
+			}
+			return true, ""
 		})
 		simple("g56 op=parse_gtid s="+hx([]byte(g.String())), "gtid56-parse", func() string {
 			x, err := replication.ParseGTID("MySQL56", g.String())
@@ -602,7 +617,17 @@ func genC19(r *RNG, tier string) []Case {
 		gm := replication.MariadbGTID{Domain: m.d, Server: m.sv, Sequence: m.q}
 		simple(fmt.Sprintf("mar op=gtid_string d=%d sv=%d q=%d", m.d, m.sv, m.q), "maria-string", func() string { return hx([]byte(gm.String())) }, func(im string) (bool, string) {
 			back, err := replication.ParseGTID("MariaDB", string(unhx(im)))
-			return err == nil && back == replication.GTID(gm), "parsing a printed MariaDB GTID does not return an equal value"
+			if err != nil || back != replication.GTID(gm) {
+				return false, "parsing a printed MariaDB GTID does not return an equal value"
+			}
+			if gm.Flavor() != "MariaDB" || gm.SequenceDomain() != interface{}(m.d) || gm.SourceServer() != interface{}(m.sv) || gm.SequenceNumber() != interface{}(m.q) {
+				return false, "an accessor of the MariaDB GTID does not return the field it names"
+			}
+			one := gm.GTIDSet()
+			if one.String() != gm.String() || !one.ContainsGTID(gm) || one.ContainsGTID(replication.MariadbGTID{Domain: m.d, Server: m.sv, Sequence: m.q + 1}) && m.q+1 > m.q {
+				return false, "GTIDSet() of a MariaDB GTID is not the one-member set of that GTID"
+			}
+			return true, ""
 		})
 		simple("mar op=parse_gtid s="+hx([]byte(gm.String())), "maria-parse", func() string {
 			x, err := replication.ParseGTID("MariaDB", gm.String())
